@@ -102,7 +102,8 @@ CHECKS = {
             "variables, kernel expressions); use-before-definition, basis-function dependence of precomputed variables "
             "and nodes outside the back-end's dispatch table fail by construction. det/adjugate/minor/cross/MatVec/MatMat/"
             "tr/T/outer/inner expansions are decided exhaustively on {0,1}^m (multilinear => polynomial identity). Space-time forms "
-            "(Dt, mixed space-time derivatives, the space-time splitting) are generated on space-time cylinders.",
+            "(Dt, mixed space-time derivatives, the space-time splitting) are generated on space-time cylinders. A coverage-guided "
+            "campaign (atheris/libFuzzer on the instrumented pyiga.vform, bytes decoded into grammar forms) runs the same oracle.",
             "Trusted: vp/ref/forms.py, vp/ref/target.py, vp/ref/geo.py. Environments are real Gauss nodes of generated "
             "spaces/geometries rather than abstract random jets (deviation from the first design, see DESIGN.md).",
             "DESIGN.md section 2, C06"),
